@@ -117,7 +117,14 @@ class RateLimitedEntity(Entity):
         self.received_times.append(now)
 
         if self._policy.try_acquire(now):
-            return self._forward(event, now)
+            if self._queue.is_empty():
+                return self._forward(event, now)
+            # Older requests are still waiting: the oldest one uses the capacity
+            # and this request takes its place in line (keeps arrival order).
+            oldest = self._queue.pop()
+            self._queue.push(event)
+            self._queued += 1
+            return self._forward(oldest, now)
 
         # Queue the event
         if self._queue.push(event):
